@@ -17,7 +17,7 @@ func TestMain(m *testing.M) { gen.Avoided = run.Avoided; run.Main(m, "C11") }
 const chk = "history"
 
 type Step struct {
-	Action string `json:"action"` // create | op | touch
+	Action string `json:"action"` // create | create-sharing | op | touch
 	Spec   int    `json:"spec"`
 	Obj    int    `json:"obj,omitempty"`
 	Op     string `json:"op,omitempty"`
@@ -66,6 +66,13 @@ func (e *engine) step(i int, s Step) string {
 	switch s.Action {
 	case "create":
 		e.objs[s.Spec] = append(e.objs[s.Spec], hist.Build(e.c.Pool[s.Spec]))
+	case "create-sharing":
+		// a new root that is given the type objects of an existing object of the same spec
+		os := e.objs[s.Spec]
+		if len(os) == 0 {
+			return ""
+		}
+		e.objs[s.Spec] = append(e.objs[s.Spec], hist.BuildSharing(e.c.Pool[s.Spec], os[s.Obj%len(os)]))
 	case "touch":
 		hist.Do(hist.Build(e.c.Pool[s.Spec]), s.Op)
 	case "op":
@@ -120,7 +127,7 @@ func TestHistories(t *testing.T) {
 		e := newEngine(c)
 		maxSteps := run.Scale(12, 40)
 		steps := rapid.IntRange(4, maxSteps).Draw(t, "steps")
-		repeats, interleaved := 0, false
+		repeats, interleaved, shared := 0, false, 0
 		seen := map[string]bool{}
 		lastSpec := -1
 		for i := 0; i < steps; i++ {
@@ -129,6 +136,10 @@ func TestHistories(t *testing.T) {
 			switch a := rapid.IntRange(0, 9).Draw(t, "action"); {
 			case a <= 1 || len(e.objs[s.Spec]) == 0:
 				s.Action = "create"
+			case a == 3 && c.Pool[s.Spec].Kind == "schema" && len(c.Pool[s.Spec].Schema.Types) > 0:
+				s.Action = "create-sharing"
+				s.Obj = rapid.IntRange(0, 3).Draw(t, "shareFrom")
+				shared++
 			case a == 2:
 				s.Action = "touch"
 				s.Op = rapid.SampledFrom(hist.Ops(c.Pool[s.Spec])).Draw(t, "op")
@@ -154,6 +165,7 @@ func TestHistories(t *testing.T) {
 		run.Eval(chk, repeats > 0 && interleaved, fmt.Sprint(c.Steps), fmt.Sprint(len(c.Pool)))
 		run.LabelN("steps", int64(steps))
 		run.LabelN("repeated-(spec,op)", int64(repeats))
+		run.LabelN("roots-sharing-type-objects", int64(shared))
 		if steps <= 8 {
 			run.Sample(chk, map[string]any{"steps": c.Steps, "pool_kinds": kinds(c.Pool)})
 		}
